@@ -168,9 +168,17 @@ SORT_PROG = "[sort, unique, group_by(.), min, max, (sort_by(.[0]) | map(.[1]))?]
 def check_sorting(c, pool, rng, report):
     """sort is a stably sorted permutation; unique / group_by / min / max / bsearch / - agree"""
     n_cases = 0
-    for _ in range(6):
+    for case in range(7):
         xs = [rng.choice(pool) for _ in range(rng.randrange(0, 14))]
         xs += rng.sample(xs, min(len(xs), 3)) if xs else []
+        if case == 6:
+            # a long array over few values: sorting algorithms change strategy with the length, and equal
+            # elements of different representation (1, 1.0, {a,b} vs {b,a}) make instability visible
+            groups = [[1, 1.0, Dec("1.0"), Big(1)], [0, -0.0, 0.0, Dec("0e0")], [2, 2.0, Dec("2.00")],
+                      [Obj([(S("a"), 1), (S("b"), 2)]), Obj([(S("b"), 2), (S("a"), 1)])],
+                      [S("a"), Str(b"a", False)], [[1, 2.0], [1.0, 2]]]
+            few = [x for g in rng.sample(groups, 3) for x in g]
+            xs = [rng.choice(few) for _ in range(rng.choice([33, 48, 64, 100, 160]))]
         tagged = [[x, i] for i, x in enumerate(xs)]
         r = c.eval("($A | [sort, unique, group_by(.), min, max]), ($T | sort_by(.[0]) | map(.[1]))", [{"input": None}],
                    vars=[("A", enc(xs)), ("T", enc(tagged))], take=4)
